@@ -15,6 +15,8 @@
 //	crash save <sc> <k> <oldhex> <tree> | crash wf <sc> <k> <oldhex> <newhex>
 //	                                   kill the saving child before its k-th <sc> call -> old-or-new | torn:<hex>
 //
+//	wg <retrieveTS> <hex|none>         WriteFavorites(content); mtime := 1000000100; GetFavorites(retrieveTS) -> <hex> <mtime> | nil <mtime>
+//	wgt <tree>                         build, Save, GetFavorites, WriteFavorites to a 2nd user, Load there -> as rt
 //	conc <writers> <millis> <seed>     overlapping ptt.WriteFavorites calls for one user + a reader (P-hat only) -> whole | torn …
 //
 // <tree> := item*      item := B <attr> <bid> <lastvisit> <battr> | L <attr> <lid> | F <attr> <fid> <titlehex> [ item* ]
@@ -320,7 +322,115 @@ func saveTreeP(u *ptttype.UserID_t, items []*spec, counters []uint64) string {
 		}
 		return "ok " + readFav(u) + " " + dumpFav(nf)
 	})
+	lastGetMismatch = ""
+	if strings.HasPrefix(out, "ok ") {
+		lastGetMismatch = getMismatch(u)
+	}
 	return out
+}
+
+var lastGetMismatch string
+
+const fileMTime = 1000000100
+
+// getMismatch: ptt.GetFavorites(u, 0) must hand back exactly the bytes of .fav ("" when it does).
+func getMismatch(u *ptttype.UserID_t) string {
+	disk, err := os.ReadFile(filepath.Join(userDir(env.Home, u), fav.FAV))
+	if err != nil {
+		return ""
+	}
+	got := hx.Call(func() string {
+		c, _, err := ptt.GetFavorites(u, 0)
+		if err != nil {
+			return "err " + err.Error()
+		}
+		if c == nil {
+			return "nil"
+		}
+		return hx.Hex(c)
+	})
+	if got == hx.Hex(disk) {
+		return ""
+	}
+	if len(got) > 80 {
+		got = fmt.Sprintf("%d bytes %s…", len(got)/2, got[:60])
+	}
+	return fmt.Sprintf("GetFavorites handed back %s for a stored .fav of %d bytes", got, len(disk))
+}
+
+// getCase: op `wg <retrieveTS> <hex|none>`: WriteFavorites stores the content, the file's mtime is set to
+// fileMTime, GetFavorites(uid, retrieveTS) answers.
+func getCase(ts int64, content []byte, present bool) (out string, fails [][2]string) {
+	cleanDir(uid)
+	if present {
+		wm, err := ptt.WriteFavorites(uid, content)
+		if err != nil {
+			return "write-err", nil
+		}
+		if st, e := os.Stat(favPath); e == nil && types.TimeToTime4(st.ModTime()) != wm {
+			fails = append(fails, [2]string{"getfavorites:mtime", "WriteFavorites returned an mtime that is not the file's"})
+		}
+		t := time.Unix(fileMTime, 0)
+		_ = os.Chtimes(favPath, t, t)
+	}
+	out = hx.Call(func() string {
+		c, m, err := ptt.GetFavorites(uid, types.Time4(ts))
+		if err != nil {
+			return "err"
+		}
+		if c == nil {
+			return fmt.Sprintf("nil %d", m)
+		}
+		return fmt.Sprintf("%s %d", hx.Hex(c), m)
+	})
+	// the API's own specification
+	var want string
+	switch {
+	case !present:
+		want = "nil 0"
+	case ts >= fileMTime:
+		want = fmt.Sprintf("nil %d", fileMTime)
+	default:
+		want = fmt.Sprintf("%s %d", hx.Hex(content), fileMTime)
+	}
+	if out != want && (!present || len(content) <= maxLegalFile) {
+		o := out
+		if len(o) > 90 {
+			o = fmt.Sprintf("%d bytes %s…", (len(strings.Fields(o)[0]))/2, o[:60])
+		}
+		fails = append(fails, [2]string{"getfavorites:truncated", fmt.Sprintf("stored %d bytes with WriteFavorites, GetFavorites(retrieveTS=%d) answered %s", len(content), ts, o)})
+	}
+	return out, fails
+}
+
+// the largest .fav the API limits allow: MAX_FAV folder entries (52 bytes) with their 4-byte sub-headers
+var maxLegalFile = 2 + 4 + fav.MAX_FAV*(52+4)
+
+// saveGetLoad: op `wgt <tree>`: Save, fetch with GetFavorites, store for another user with WriteFavorites, Load.
+func saveGetLoad(items []*spec) string {
+	cleanDir(uid)
+	cleanDir(uidRef)
+	f := fav.NewFavRaw(nil)
+	if st := build(f, items); st != "" {
+		return "api-" + st
+	}
+	return hx.CallT(10*time.Second, func() string {
+		if _, err := f.Save(uid); err != nil {
+			return "err save"
+		}
+		c, _, err := ptt.GetFavorites(uid, 0)
+		if err != nil || c == nil {
+			return "err get"
+		}
+		if _, err := ptt.WriteFavorites(uidRef, c); err != nil {
+			return "err write"
+		}
+		nf, err := fav.Load(uidRef)
+		if err != nil {
+			return "err " + hx.Hex(c) + " -"
+		}
+		return "ok " + hx.Hex(c) + " " + dumpFav(nf)
+	})
 }
 
 func loadBytes(b []byte) string {
@@ -534,6 +644,54 @@ func execOp(line string) (res result) {
 		res.out = saveTree(uid, items)
 		res.label = "rt:" + classify(items, res.out)
 		judgeRT(items, &res)
+		if lastGetMismatch != "" {
+			res.fails = append(res.fails, [2]string{"getfavorites:truncated", lastGetMismatch})
+		}
+	case "wgt":
+		items, err := parseTree(ws[1:])
+		if err != nil {
+			return bad()
+		}
+		res.out = saveGetLoad(items)
+		res.label = "wgt:" + sizeClass(res.out)
+		if strings.HasPrefix(res.out, "err ") && len(strings.Fields(res.out)) == 2 {
+			res.fails = append(res.fails, [2]string{"getfavorites:truncated", "save / GetFavorites / WriteFavorites failed: " + res.out})
+		} else {
+			judgeRTvia(items, &res, true)
+			if ws2 := strings.Fields(res.out); len(ws2) == 3 {
+				if disk := readFav(uid); disk != ws2[1] {
+					res.fails = append(res.fails, [2]string{"getfavorites:truncated", fmt.Sprintf("GetFavorites handed back %d bytes of a %d-byte .fav", len(ws2[1])/2, len(disk)/2)})
+				}
+			}
+		}
+	case "wg":
+		if len(ws) != 3 || !(isHex(ws[2]) || ws[2] == "none") {
+			return bad()
+		}
+		ts, err := num(ws[1], math.MaxInt32)
+		if err != nil {
+			return bad()
+		}
+		var content []byte
+		if ws[2] != "none" {
+			content = hx.UnHex(ws[2])
+		}
+		res.out, res.fails = getCase(int64(ts), content, ws[2] != "none")
+		switch {
+		case strings.HasPrefix(res.out, "nil 0"):
+			res.label = "wg:no-file"
+		case strings.HasPrefix(res.out, "nil "):
+			res.label = "wg:not-modified"
+		case res.out == "err" || res.out == "write-err" || res.out == "PANIC" || res.out == "TIMEOUT":
+			res.label = "wg:" + res.out
+		default:
+			res.label = "wg:content"
+		}
+		if ws[2] != "none" && len(content) > maxLegalFile {
+			res.label = "wg:beyond-legal-size"
+		} else if ws[2] != "none" && len(content) > 14342 {
+			res.label = "wg:large"
+		}
 	case "rtp":
 		if len(ws) < 4 {
 			return bad()
@@ -820,6 +978,29 @@ func tornKind(b []byte, images [][]byte) string {
 
 var lastSurvived bool
 
+func clip(s string) string {
+	if len(s) > 160 {
+		return fmt.Sprintf("%s… (%d chars)", s[:160], len(s))
+	}
+	return s
+}
+
+func sizeClass(out string) string {
+	ws := strings.Fields(out)
+	if len(ws) != 3 {
+		return ws[0]
+	}
+	n := len(ws[1]) / 2
+	switch {
+	case n == maxLegalFile:
+		return "max-size"
+	case n > 14342:
+		return "large"
+	}
+	return "small"
+}
+
+
 // ---- P-hat for rt: the property's own specification, written directly on the spec tree ----------
 
 // apiShouldAccept: the limits of the favourites API (MAX_FAV entries in all, MAX_LINE lines and MAX_FOLDER
@@ -1070,7 +1251,9 @@ func refParse(b []byte) (string, error) {
 	return sb.String(), nil
 }
 
-func judgeRT(items []*spec, res *result) {
+func judgeRT(items []*spec, res *result) { judgeRTvia(items, res, false) }
+
+func judgeRTvia(items []*spec, res *result, viaGet bool) {
 	want := apiShouldAccept(items)
 	fail := func(key, what string) { res.fails = append(res.fails, [2]string{key, what}) }
 	switch {
@@ -1100,7 +1283,11 @@ func judgeRT(items []*spec, res *result) {
 		if want != "" {
 			k = "overflow:" + want
 		}
-		fail(k, "Save failed after replacing .fav (file "+ws[1]+"); expected tree "+exp)
+		if viaGet {
+			fail(k, "the bytes GetFavorites handed back do not load ("+clip(ws[1])+"); expected tree "+clip(exp))
+		} else {
+			fail(k, "Save failed after replacing .fav (file "+clip(ws[1])+"); expected tree "+clip(exp))
+		}
 		return
 	}
 	if ws[2] != exp {
@@ -1232,7 +1419,7 @@ func main() {
 	favPath = filepath.Join(userDir(env.Home, uid), fav.FAV)
 	selfExe, _ = os.Executable()
 
-	run.Rule = "rt: every tree of depth<=3 with <=2 entries per level and of depth<=2 with <=3 entries per level built through the API alone (smallest first), random larger trees (depth<=6, <=40 entries per level) with overwritten attr/lid/fid/title/lastvisit fields incl. entries without the FAV bit, the API limits (MAX_LINE, MAX_FOLDER, MAX_FAV, board ids) at and past each bound; load: headers with counts from {-32768,-1,0,1,32767}x{-128,-1,0,1,127}^2 x short bodies, every type byte, every truncation of valid files, single-byte corruptions, random bytes; mt: file older/equal/newer/absent; conc: 4-8 goroutines store images of 5 different lengths with ptt.WriteFavorites for one user while a reader reads and loads .fav in a loop; trace+crash: strace on a re-executed saving child, SIGKILL before the k-th write/openat/renameat for every k until the child survives. distinct = distinct op lines; nontrivial = reaches the code under test (not bad-op)"
+	run.Rule = "rt: every tree of depth<=3 with <=2 entries per level and of depth<=2 with <=3 entries per level built through the API alone (smallest first), random larger trees (depth<=6, <=40 entries per level) with overwritten attr/lid/fid/title/lastvisit fields incl. entries without the FAV bit, the API limits (MAX_LINE, MAX_FOLDER, MAX_FAV, board ids) at and past each bound; load: headers with counts from {-32768,-1,0,1,32767}x{-128,-1,0,1,127}^2 x short bodies, every type byte, every truncation of valid files, single-byte corruptions, random bytes; mt: file older/equal/newer/absent; wg/wgt: the byte-level pair WriteFavorites/GetFavorites on contents of every length around 14342 and up to the largest legal file (57350 bytes) and on boundary-size trees (1024 entries: all folders / 10x100 boards / 64x15 boards), every rt additionally compares GetFavorites with the file; conc: 4-8 goroutines store images of 5 different lengths with ptt.WriteFavorites for one user while a reader reads and loads .fav in a loop; trace+crash: strace on a re-executed saving child, SIGKILL before the k-th write/openat/renameat for every k until the child survives. distinct = distinct op lines; nontrivial = reaches the code under test (not bad-op)"
 
 	if run.Replay != "" {
 		for _, l := range hx.ReplayOps(run.Replay) {
